@@ -100,7 +100,9 @@ def gen_script(rng, nops):
             lines.append("ptr %d %d" % (rng.randint(0, W + 3), rng.randint(0, H + 3)))
         else:
             c = rng.randrange(nc)
-            cs = 0 if c in soft else 1
+            cs = (0 if c in soft else 1) if rng.random() < 0.6 else rng.randint(0, 1)
+            if not cs:
+                soft.add(c)     # "ever soft": the python oracle skips the idle-silence rule for it
             lines.append("setenc %d %d %d" % (c, rng.randint(0, 1), cs))
         states()
     # drain: every client asks for everything and is updated until idle
